@@ -1067,6 +1067,24 @@ def free_delegates(ctx):
                 out.append(bad(R, key, 'does not pass its own queue and job to scheduler().%s, or does not return its result (receiver %s, arguments %s)' % (name, recv, args_), fn=fn.name))
         else:
             out.append(bad(R, key, 'does not delegate to Scheduler::%s on every path (calls: %s)' % (name, ', '.join(sorted(set(others))) or 'none'), fn=fn.name))
+    # the methods of Desync<T> use the entry point of the same kind (a try_sync that went through sync would block, a sync through
+    # desync would not wait ...)
+    for name, accepted in (('desync', ('desync::desync', S + 'desync')), ('sync', ('desync::sync', S + 'sync')), ('try_sync', ('desync::try_sync', S + 'try_sync')),
+                           ('future_desync', ('desync::future_desync', S + 'future_desync')), ('future_sync', ('desync::future_sync', S + 'future_sync')),
+                           ('after', ('desync::Desync::future_desync', 'desync::future_desync', S + 'future_desync', S + 'after'))):
+        fn = F.fn('desync::Desync::' + name)
+        key = 'Desync::%s|delegates' % name
+        if not fn:
+            out.append(undecided(R, key, 'method not found'))
+            continue
+        entry = ['desync::desync', 'desync::sync', 'desync::try_sync', 'desync::future_desync', 'desync::future_sync', 'desync::after'] + [S + x for x in ('desync', 'sync', 'try_sync', 'sync_no_panic', 'future_desync', 'future_sync', 'after')] + ['desync::Desync::' + x for x in ('desync', 'sync', 'try_sync', 'future_desync', 'future_sync', 'after')]
+        used = [t['func'].get('fn') for bb, t in fn.calls() if (t['func'].get('fn') or '') in entry]
+        good = [bb for bb, t in fn.calls() if (t['func'].get('fn') or '') in accepted]
+        wrong = sorted(set(short(u) for u in used if u not in accepted))
+        if good and not wrong and fn.must_pass(0, set(fn.exits()), set(good)):
+            out.append(ok(R, key, 'goes through %s on every path' % short([u for u in used if u in accepted][0]), fn=fn.name))
+        else:
+            out.append(bad(R, key, 'Desync::%s goes through %s instead of the entry point of its own kind' % (name, ', '.join(wrong) or 'nothing'), fn=fn.name))
     fid = F.fn('desync::FutureId::new')
     key = 'FutureId::new|unique'
     if not fid:
